@@ -198,6 +198,53 @@ func checkC02(p *Prog, r *Report) {
 	// ---- SEED ----
 	r.Rule("C02/SEED", "Transfer.Seed on both ends is the session seed: on the server the value written to the wire by handleConn; on the client the int32 read from the connection", 4)
 	hc := anchorFunc(p, r, pkgRsyncd, "Server", "handleConn")
+	// seedOK: v (used at instruction at) is the session seed: read from the wire, or
+	// already written to the peer by this function before at, or a parameter every
+	// caller binds to such a value (≤ 3 levels).
+	var seedOK func(v ssa.Value, at ssa.Instruction, depth int) (bool, string)
+	seedOK = func(v ssa.Value, at ssa.Instruction, depth int) (bool, string) {
+		if rc, idx := extractOf(v); rc != nil && idx == 0 && calleeName(rc) == "(*"+pkgWire+".Conn).ReadInt32" {
+			return true, ""
+		}
+		fn := at.Parent()
+		wrote := false
+		allCalls(fn, func(w ssa.CallInstruction) {
+			if calleeName(w) == "(*"+pkgWire+".Conn).WriteInt32" && w.Common().Args[1] == v && InstrDominates(w, at) {
+				wrote = true
+			}
+		})
+		if wrote {
+			return true, ""
+		}
+		prm, isP := v.(*ssa.Parameter)
+		if !isP || depth >= 3 {
+			return false, "seed in " + funcKey(fn) + " is neither the value sent to the peer nor the value read from the wire"
+		}
+		idx := -1
+		for i, pp := range fn.Params {
+			if pp == prm {
+				idx = i
+			}
+		}
+		n := 0
+		for _, e := range p.ModGraph().In[fn] {
+			if isTestSupport(pkgPathOfFunc(e.From)) {
+				continue
+			}
+			c, isC := e.Site.(ssa.CallInstruction)
+			if !isC || e.Escape || idx < 0 || c.Common().StaticCallee() != fn {
+				return false, funcKey(fn) + " is used as a value; callers unknown"
+			}
+			n++
+			if ok, why := seedOK(c.Common().Args[idx], c, depth+1); !ok {
+				return false, why
+			}
+		}
+		if n == 0 {
+			return false, funcKey(fn) + " has no callers"
+		}
+		return true, ""
+	}
 	for _, sf := range []*types.Var{seedS, seedR} {
 		for _, st := range storesToField(p, sf) {
 			fn := st.Parent()
@@ -205,42 +252,8 @@ func checkC02(p *Prog, r *Report) {
 				continue
 			}
 			key := funcKey(fn) + " store " + sf.Pkg().Name() + ".Transfer.Seed"
-			ok := false
-			why := "seed is neither the value handleConn wrote nor the value read from the wire"
-			if prm, isP := st.Val.(*ssa.Parameter); isP && hc != nil {
-				// every caller passes the value it wrote with WriteInt32
-				idx := -1
-				for i, pp := range fn.Params {
-					if pp == prm {
-						idx = i
-					}
-				}
-				ok = true
-				n := 0
-				for _, e := range p.ModGraph().In[fn] {
-					c, isC := e.Site.(ssa.CallInstruction)
-					if !isC || e.Escape {
-						ok = false
-						continue
-					}
-					n++
-					arg := c.Common().Args[idx]
-					wrote := false
-					allCalls(e.From, func(w ssa.CallInstruction) {
-						if calleeName(w) == "(*"+pkgWire+".Conn).WriteInt32" && w.Common().Args[1] == arg && InstrDominates(w, c) {
-							wrote = true
-						}
-					})
-					if !wrote {
-						ok = false
-						why = "caller " + funcKey(e.From) + " does not send this seed to the peer before using it"
-					}
-				}
-				ok = ok && n > 0
-			} else if rc, idx := extractOf(st.Val); rc != nil && idx == 0 && calleeName(rc) == "(*"+pkgWire+".Conn).ReadInt32" {
-				ok = true
-			}
-			r.Cond(ok, "C02/SEED", key, p.Pos(st.Pos()), why)
+			ok, why := seedOK(st.Val, st, 0)
+			r.Cond(ok && hc != nil, "C02/SEED", key, p.Pos(st.Pos()), why)
 		}
 	}
 
